@@ -60,7 +60,8 @@ def generate(rng, tier):
             for item, opt in ((b'i = 5', b'i'), (b'il = {3, 4}', b'il'), (b's = "v"', b's'), (b'sec { ' + cm + b' a = 2 }', b'sec|a')):
                 n += 1
                 text = (cm + b' ' + item) if opt != b'sec|a' else item
-                lines = gen.prelude(SCHEMA, F['COMMENTS']) + ['init 1 0 %d' % F['COMMENTS'], 'parse_buf 0 ' + hx(text + b'\n'), 'dump 0', 'print 0 0']
+                lines = gen.prelude(SCHEMA, F['COMMENTS']) + ['init 1 0 %d' % F['COMMENTS'], 'parse_buf 0 ' + hx(text + b'\n'), 'dump 0', 'print 0 0',
+                                                              'roundtrip 0 1', 'dump 1']
                 yield Scn('a%d' % n, lines, {'class': 'annotation/' + style, 'kind': 'annot', 'note': note, 'opt': opt, 'inside': True})
 
 
@@ -93,9 +94,9 @@ def oracle(scn, il):
         elif rc0 == '0' and strip_cmt(d0)[5:] != strip_cmt(d1)[5:]:
             out.append(('values-changed', '%s: values differ after inserting a comment: %s\n %s\n %s' % (scn.id, show(scn.lines[-3]), d0[:600], d1[:600])))
         return out
-    if len(body) < 3:
+    if len(body) < 5:
         return [('no-result', scn.id)]
-    parse, dump, pr = body[-3:]
+    parse, dump, pr, rt, dump1 = body[-5:]
     note = scn.meta['note']
     name = scn.meta['opt'].split(b'|')[-1]
     m = re.search(r'\(opt %s \w+ \d+ \d \d \d (\S+?)[ )]' % hx(name), dump if b'|' not in scn.meta['opt'] else dump[dump.index('(cfg 736563'):])
@@ -117,6 +118,12 @@ def oracle(scn, il):
         text = unhx(pr.split('text=')[1].split(' ')[0]) or b''
         if b'/* ' + want_text + b' */' not in text:
             out.append(('annotation-not-printed', '%s: print output lacks the annotation %r:\n%s' % (scn.id, want_text, text.decode('latin-1'))))
+        else:
+            src = dump1 if b'|' not in scn.meta['opt'] else dump1[dump1.index('(cfg 736563'):]
+            m1 = re.search(r'\(opt %s \w+ \d+ \d \d \d (\S+?)[ )]' % hx(name), src)
+            if 'rc=0 ' not in rt or not m1 or m1.group(1) != hx(trim(want_text)):
+                out.append(('annotation-not-reread', '%s: annotation %r after print and re-parse is %s (%s)' % (
+                    scn.id, want_text, m1.group(1) if m1 else '?', rt[:80])))
     return out
 
 
